@@ -230,7 +230,17 @@ def _variants(case, rng):
             ch = [t if (t[0], t[1]) != (labels[k][0], labels[k][1]) else (t[0], mid, t[2]) for t in ch]
             out.append(('middle_changed', sf.IndexHierarchy.from_labels(ch)))
         s_he = [(tag + '_series_he', sf.SeriesHE(np.arange(len(v)), index=v)) for tag, v in out[:2] + out[4:6]]
-        return out + s_he
+        # the same labels with a date depth held by a typed index, by a plain index of datetime64 labels, each fresh and already read
+        days = np.array(['2021-05-01', '2021-05-02', '2021-05-03'][:max(2, len(levels[-1]))], dtype='M8[D]')
+        typed = []
+        for tag, inner in (('date_typed', lambda: sf.IndexDate(days)), ('date_plain', lambda: sf.Index(days))):
+            for read in (False, True):
+                ih = sf.IndexHierarchy.from_product(levels[0], inner())
+                if read:
+                    ih.values
+                    repr(ih)
+                typed.append((tag + ('_read' if read else ''), ih))
+        return out + s_he + typed
     labels = case['labels']
     base = sf.IndexHierarchy.from_labels(labels)
     out = [('base', base), ('rebuilt', sf.IndexHierarchy.from_labels(labels)), ('go', sf.IndexHierarchyGO.from_labels(labels)),
@@ -339,7 +349,8 @@ def _index_R(a, b, name, dtype, cls, skipna):
     else:
         if dtype and [a.values_at_depth(d).dtype for d in range(a.depth)] != [b.values_at_depth(d).dtype for d in range(b.depth)]:
             return False
-        if cls and [type(x) for x in a.index_types.values] != [type(x) for x in b.index_types.values] and False:
+        if cls and list(a.index_types.values) != list(b.index_types.values):
+            # the class requirement holds per depth as well (an IndexDate depth is not a plain Index of datetime64 labels)
             return False
     la, lb = canon.index_labels(a), canon.index_labels(b)
     for x, y in zip(la, lb):
